@@ -133,7 +133,9 @@ func drawHealth(n int, rng *rand.Rand) Spec {
 		{Type: "Ready", Status: "False", TolerateS: tol[rng.Intn(3)]},
 		{Type: "Ready", Status: "Unknown", TolerateS: tol[rng.Intn(3)]},
 		{Type: "BadNode", Status: "True", TolerateS: tol[rng.Intn(3)]},
+		{Type: "NetworkDown", Status: "True", TolerateS: tol[rng.Intn(3)]},
 	}
+	rng.Shuffle(len(S.Policies), func(i, j int) { S.Policies[i], S.Policies[j] = S.Policies[j], S.Policies[i] })
 	S.Pools = []PoolSpec{{ExpireAfter: "Never"}}
 	standalone := n%7 == 6
 	N := 1 + rng.Intn(10)
@@ -148,10 +150,22 @@ func drawHealth(n int, rng *rand.Rand) Spec {
 	if U > N {
 		U = N
 	}
+	// overlap cases: the target shows two conditions of different policies whose toleration boundaries are placed around
+	// each other (the later condition falls due just before / with / just after the earlier one), in a pool small enough
+	// that one unhealthy node is within the 20% allowance
+	overlap := n%3 == 1
+	if overlap {
+		N, U = 1+rng.Intn(5), 1
+	}
 	pick := func() []int {
 		p := []int{rng.Intn(len(S.Policies))}
-		if rng.Intn(6) == 0 {
-			if q := rng.Intn(len(S.Policies)); S.Policies[q].Type != S.Policies[p[0]].Type {
+		for k := 0; k < 2 && rng.Intn(3) == 0; k++ {
+			q := rng.Intn(len(S.Policies))
+			clash := false
+			for _, x := range p {
+				clash = clash || S.Policies[q].Type == S.Policies[x].Type
+			}
+			if !clash {
 				p = append(p, q)
 			}
 		}
@@ -164,7 +178,24 @@ func drawHealth(n int, rng *rand.Rand) Spec {
 		}
 		if i < U {
 			c.Unhealthy, c.UnhealthyStepS = pick(), 1+rng.Intn(90)
+			c.UnhealthyGapS = []int{0, 20, 250, 500, 1400}[rng.Intn(5)]
 			c.NoiseCond = false
+			if overlap {
+				a := rng.Intn(len(S.Policies))
+				b := rng.Intn(len(S.Policies))
+				for S.Policies[b].Type == S.Policies[a].Type {
+					b = rng.Intn(len(S.Policies))
+				}
+				for S.Policies[a].TolerateS == S.Policies[b].TolerateS {
+					S.Policies[b].TolerateS = tol[rng.Intn(3)]
+				}
+				c.Unhealthy = []int{a, b}
+				if d := S.Policies[a].TolerateS - S.Policies[b].TolerateS; d > 0 {
+					c.UnhealthyGapS = d + []int{-30, 0, 30, 200}[rng.Intn(4)]
+				} else {
+					c.UnhealthyGapS = rng.Intn(1700)
+				}
+			}
 		}
 		S.Claims = append(S.Claims, c)
 	}
